@@ -69,6 +69,11 @@ def run(prop, tier, seed, work, ev):
     c = work.path("chars.cases")
     eng_lang.gen(work, "chars", c, t["charsN"], alpha="full")
     rejects += run_and_judge("language engine: all character strings <= %d" % t["charsN"], c, "lang", work, ev, drv)
+    for mode, label in (("uni", "language engine: Unicode class probes after every token-starting character"),
+                        ("numerals", "language engine: number-token spellings (leading zeros, long runs, limits)")):
+        c = work.path(mode + ".cases")
+        eng_lang.gen(work, mode, c, 0)
+        rejects += run_and_judge(label, c, "lang", work, ev, drv)
     c = work.path("rtext.cases")
     subprocess.check_call([drv, "gen", "lang-text", str(seed + 5), str(t["rtext"]), c], env=dict(os.environ, GEN_MAXLEN="60"))
     rejects += run_and_judge("language engine: random / truncated / mutated texts", c, "lang", work, ev, drv, nsamples=2)
